@@ -24,6 +24,11 @@ C07 line-protocol driver (fields separated by one space; byte strings hex, `-` =
                   | redirect [<hex Location>]   (Location only when <orig> starts with `/`)
                   | file <hexpath> <id> | listing <hexpath> <hexname,… or .>
                   | sidecar <hexpath> <id> <hexenc>
+  site <cwd> <root> <hide> <index> <flags> <tries> <path> <tree> <caddyfile>
+        a Caddyfile site — `root * <root>` (omitted when `-`), `try_files …` (omitted when `.`),
+        `file_server [browse] { hide …; index … (omitted when `.`); pass_thru; disable_canonical_uris }`
+        — adapted by the real adapter under the file name <caddyfile>, served by the real http app
+        → like serve (Site.lean: siteHide, matcher → rewrite → file server)
   pair <fault> <serve fields A> // <serve fields B>
         fault         n: none; t | w<k>: request A's listing is rendered but not delivered (failing template /
                       client connection fails after k bytes); then B is served by another instance
@@ -36,6 +41,7 @@ The tree is turned into the `FS` parameter of the model by `treeFS`; harness/int
 implements the same lookup as an `fs.FS` (memfs).
 -/
 import CaddyModel.C07.Model
+import CaddyModel.C07.Site
 
 namespace CaddyModel.C07
 
@@ -215,6 +221,30 @@ def splitAtSep (l : List String) : Option (List String × List String) :=
   | (a, _ :: b) => if b.contains "//" then none else some (a, b)
   | _ => none
 
+/-- a configuration string the `site` op can write into Caddyfile text between backticks -/
+def safeCfg (s : Bytes) : Bool :=
+  !s.isEmpty && s.all fun c => !(c = 96 || c = 34 || c = 10 || c = 13 || c = 0 || c = 123 || c = 125 || c = 92)
+
+/-- `site <cwd> <root> <hide> <index> <flags> <tries> <path> <tree> <caddyfile name>`: a Caddyfile
+    site (`root *`, `try_files`, `file_server`) adapted by the real adapter and served by the real
+    http app; index `.` = not configured (defaults), root `-` = no `root` directive -/
+def handleSite (cwd root hide index flags tries path tree cfname : String) : String :=
+  match Hex.decode cwd, Hex.decode root, parseList hide, parseList index, flags.toList.mapM parseBit,
+        parseTries tries, Hex.decode path, parseTree tree, Hex.decode cfname with
+  | some cwd, some root, some hide, some index, some [b, pt, cn], some tries, some path, some tree, some cfname =>
+    if !isRooted cwd || pathClean cwd ≠ cwd || !validTree tree || !tries.all validTry then "bad-op"
+    else if !(root.isEmpty || safeCfg root) || !hide.all safeCfg || !index.all safeCfg || !safeCfg cfname
+        || !tries.all (fun t => (t.pre.isEmpty || safeCfg t.pre) && (t.suf.isEmpty || safeCfg t.suf)
+                                && !(t.raw.isEmpty) && !t.raw.contains 63) then "bad-op"
+    else
+      let r := siteServe (treeFS cwd tree)
+        { cwd := cwd, root := root, hide := siteHide cwd hide (some cfname),
+          index := if index.isEmpty then defaultIndexNames else index,
+          browse := b, passThru := pt, canonical := cn }
+        (if tries.isEmpty then none else some tries) path
+      showOutcome r.1 ++ " | " ++ showList r.2
+  | _, _, _, _, _, _, _, _, _ => "bad-op"
+
 def handle : List String → String
   | ["clean", p] =>
     match Hex.decode p with
@@ -238,6 +268,8 @@ def handle : List String → String
     handleServe cwd root hide index flags path orig tree pre enc query via
   | ["serve", cwd, root, hide, index, flags, path, orig, tree, pre, enc, query, via, etag] =>
     handleServe cwd root hide index flags path orig tree pre enc query via etag
+  | ["site", cwd, root, hide, index, flags, tries, path, tree, cfname] =>
+    handleSite cwd root hide index flags tries path tree cfname
   | "pair" :: fault :: rest =>
     -- a faulted browse request A, then request B on another instance; by
     -- `Props.browse_history_independent` the answer is B's own answer
